@@ -127,6 +127,21 @@ static std::string handle(const std::string& cmd, const std::string& args) {
     for (const FastaSeq& f : r) out += " " + hv::hex_encode(f.header) + " " + hv::hex_encode(f.seq);
     return out;
   }
+  if (cmd == "linecut") {      // linecut <kind> <opt> <path> <line_start> <col> <pad>: one line cut short at a column
+    std::ifstream f(w.at(2), std::ios::binary);
+    std::string data((std::istreambuf_iterator<char>(f)), std::istreambuf_iterator<char>());
+    size_t ls = (size_t) to_ll(w.at(3)), col = (size_t) to_ll(w.at(4));
+    long long pad = to_ll(w.at(5));
+    size_t e = data.find('\n', ls);
+    if (e == std::string::npos) e = data.size();
+    if (ls + col < e) {
+      if (pad == 0) data.erase(ls + col, e - (ls + col));                  // the line ends here
+      else if (pad == 1) data.replace(ls + col, e - (ls + col), e - (ls + col), ' ');   // blank to the end
+      else data.erase(ls + col, e - (ls + col)).insert(ls + col, "\r");    // CR before the newline
+    }
+    if (data.size() > 65536) data.resize(65536);
+    return guarded(w.at(0), std::move(data), (int) to_ll(w.at(1)));
+  }
   if (cmd == "file") {         // file <kind> <opt> <path> <trunc_len or -1> <nmut> <seed>
     std::ifstream f(w.at(2), std::ios::binary);
     std::string data((std::istreambuf_iterator<char>(f)), std::istreambuf_iterator<char>());
